@@ -40,13 +40,8 @@ finding(["C18"], "P4", "tensor.allTypes",
         "unsynchronised write in tensor.Register", 25)
 
 # ---- engine P2 (operand purity) ---------------------------------------------------------------
-for k in ["tensor.(*Dense).Outer(t)", "tensor.(*Dense).Outer(other)", "tensor.(StdEng).Outer(a)", "tensor.(StdEng).Outer(b)", "tensor.Outer(a)", "tensor.Outer(b)"]:
-    finding(["C09","C18"], "P2", k, "Outer into a column-major result temporarily reshapes both operands to (m,1) and (1,n): concurrent readers of the operands race on their shape (the error exits restore them since fix 9516b10)", "writes AP.fin, AP.shape, AP.strides", 14)
 for k in ["tensor.(*Dense).Concat(t)", "tensor.(*Dense).Hstack(t)", "tensor.(*Dense).Vstack(t)", "tensor.(StdEng).Concat(t)", "tensor.(StdEng).Concat(others)", "tensor.Concat(t)"]:
     finding(["C10","C18"], "P2", k, "denseConcat reshapes row-vector operands and clears a masked operand's mask (mt.SetMask(nil)); the restore is commented out", "writes AP.fin, AP.shape, AP.strides, Dense.mask", 16)
-
-finding(["C18"], "P2", "tensor.(*Dense).Norm(t)", "Norm (unordered / Frobenius / 2-norm of a vector) swaps a flat access pattern into its operand for the duration of a Dot call: eight goroutines calling t.Norm() on one shared tensor get wrong norms, data races, and leave t with shape (0)",
-        "writes AP.fin, AP.o, AP.shape, AP.strides, AP.Δ, Dense.AP, Dense.old, Dense.transposeWith", 48)
 
 
 finding(["C16"], "S11", "tensor.(*AP).setDataOrder", "setDataOrder (called by handleFuncOpts on the reuse tensor) flips the column-major bit and keeps the row-major strides: Add(colA, colB, WithReuse(rowR)) returns flag ColMajor with strides [3 1]; At(0,1)=13 instead of 11", "flag flipped, strides kept", 40)
@@ -68,6 +63,8 @@ finding(["C14"], "F1", "tensor.numpyDtypes[Int32]", "GOARCH=386: Int32 is writte
 finding(["C14"], "F1", "tensor.numpyDtypes[Uint32]", "GOARCH=386: Uint32 is written as u4, which the reader maps to Uint", "Uint32->u4->Uint", 43)
 
 FIXED = [
+ {"property":"C18","commit":"7e8227a","rule":"P2","key":"tensor.(*Dense).Norm(t)","what":"fixed: property=C18 7e8227a Norm swapped a flat access pattern into its operand for the duration of a Dot call: eight goroutines calling t.Norm() on one shared tensor got wrong norms, data races, and left t with shape (0) (DESIGN finding 48)"},
+ {"property":"C18","commit":"258a79f","rule":"P2","key":"tensor.(*Dense).Outer(t), tensor.(*Dense).Outer(other), tensor.(StdEng).Outer(a), tensor.(StdEng).Outer(b), tensor.Outer(a), tensor.Outer(b)","what":"fixed: property=C18 258a79f Outer into a column-major result temporarily reshaped both operands to (m,1) and (1,n): concurrent readers of the operands raced on their shape (DESIGN finding 14)"},
  {"property":"C18","commit":"84b676e","rule":"P2","key":"tensor.(StdEng).Dot(y), tensor.Dot(y)","what":"fixed: property=C18 84b676e Dot(vector, matrix) did b.T(); defer b.UT() on its operand: a lazily transposed b came back untransposed, and concurrent readers of b raced (DESIGN finding 13)"},
  {"property":"C11","commit":"9aa1df2","rule":"M3","key":"tensor.(StdEng).*Scalar[*scalar-left*iter]","what":"fixed: property=C11 9aa1df2 comparison/min-max with the scalar on the left, same-type result, iterator path: the result buffer was indexed through the operand's iterator (bit): Gt(5, a[:,1], AsSameType()) panicked index out of range (DESIGN finding 35)"},
  {"property":"C11","commit":"74195dd","rule":"M2","key":"tensor.(StdEng).*Scalar[unsafe,scalar-left,*one-element]","what":"fixed: property=C11 74195dd comparison with the scalar on the left, unsafe, one-element tensor: E.<Cmp>Same(S,T) wrote the scalar's header and nothing copied it back: Gt(5,[3],UseUnsafe()) returned [3] (DESIGN finding 42)"},
